@@ -36,6 +36,7 @@ type HarnessSpec struct {
 	Outside  []string          `json:"outside"`
 	Assumptions []string       `json:"assumptions"`
 	NativeReplay *bool         `json:"native_replay"`
+	NativeValidate *bool       `json:"native_validate"` // compare sampled clean paths with the native build (default: yes)
 	NativeTries  int           `json:"native_tries"` // native replays of a schedule-dependent counterexample (stress loop)
 }
 
@@ -613,7 +614,7 @@ func cmdCheck(argv []string) int {
 	validated, mismatched := 0, 0
 	if exit == 0 && nberr == nil && *doReplay {
 		for _, r := range results {
-			if r == nil || !r.h.native() {
+			if r == nil || !r.h.native() || (r.h.NativeValidate != nil && !*r.h.NativeValidate) {
 				continue
 			}
 			for wi, wit := range r.ex.Witnesses {
